@@ -1,5 +1,102 @@
 package main
 
-func (e *Engine) runLemmas(prop string) []*Obligation { return nil }
+import (
+	"fmt"
+	"go/ast"
+	"go/token"
+	"go/types"
+)
 
-func (e *Engine) runLua(prop string) ([]*Obligation, []string) { return nil, nil }
+func (e *Engine) findLemma(name string) *Lemma {
+	for _, l := range e.cs.Lemmas {
+		if l.Name == name {
+			return l
+		}
+	}
+	return nil
+}
+
+// useLemma assumes the instance (hyps => goal) of a lemma that is proved separately for arbitrary parameters.
+func (u *Unit) useLemma(st *State, sev *Ev, call ast.Expr) {
+	ce, ok := call.(*ast.CallExpr)
+	if !ok {
+		sev.errorf(token.NoPos, "lemma use must be name(args)")
+		return
+	}
+	name := exprString(ce.Fun)
+	l := u.eng.findLemma(name)
+	if l == nil {
+		sev.errorf(token.NoPos, "unknown lemma %s", name)
+		return
+	}
+	if len(ce.Args) != len(l.Params) {
+		sev.errorf(token.NoPos, "lemma %s: want %d arguments", name, len(l.Params))
+		return
+	}
+	sub := &Ev{u: u, st: st, old: sev.old, spec: true, binds: map[string]Value{}, pkg: u.eng.pkgs[l.PkgPath], where: "lemma " + name}
+	if sub.pkg == nil {
+		sub.pkg = sev.pkg
+	}
+	for i, p := range l.Params {
+		v := sev.expr(ce.Args[i])
+		if p.Type != nil {
+			if t := sub.resolveType(p.Type); t != nil && v.K == vScalar {
+				if s := u.sortOf(t); s == SReal && v.S == SInt {
+					v = scalar(toReal(v.T), SReal, t)
+				}
+			}
+		}
+		sub.binds[p.Name] = v
+	}
+	var hyps []string
+	for _, h := range l.Hyps {
+		hyps = append(hyps, sub.expr(h.Expr).T)
+	}
+	g := sub.expr(l.Goal.Expr)
+	st.assume(implies(and(hyps...), g.T))
+	u.eng.mu.Lock()
+	u.eng.lemmaUsed[name] = true
+	u.eng.mu.Unlock()
+}
+
+// runLemmas proves every lemma tagged with the property (and every lemma used by its units) for arbitrary parameters.
+func (e *Engine) runLemmas(prop string) []*Obligation {
+	var out []*Obligation
+	for _, l := range e.cs.Lemmas {
+		if !(prop == "" || hasProp(l.Props, prop) || e.lemmaUsed[l.Name]) {
+			continue
+		}
+		u := &Unit{eng: e, name: "lemma/" + l.Name, declared: map[string]bool{}, assumptions: map[string]bool{}, uncontracted: map[string]bool{},
+			strLits: map[string]string{}, oblCount: map[string]int{}, loopOrd: map[ast.Stmt]string{}, callOrd: map[*ast.CallExpr]string{},
+			litOrd: map[*ast.FuncLit]int{}, allocd: map[string]bool{}, reached: map[string]bool{}, maxPaths: 10, entryHeld: map[string]bool{}}
+		u.pkg = e.pkgs[l.PkgPath]
+		u.floatIEEE = l.Flags["float_ieee"]
+		st := &State{env: map[types.Object]Value{}, heap: map[string]string{}, held: map[string]bool{}, lets: map[string]Value{}}
+		u.entry = st
+		sev := &Ev{u: u, st: st, old: st, spec: true, binds: map[string]Value{}, pkg: u.pkg, where: "lemma " + l.Name}
+		for _, p := range l.Params {
+			t := sev.resolveType(p.Type)
+			v := u.freshValue(t, p.Name, st)
+			sev.binds[p.Name] = v
+		}
+		for _, h := range l.Hyps {
+			st.assume(sev.expr(h.Expr).T)
+		}
+		u.emitSat(st, "vacuity/hyp", "lemma hypotheses are satisfiable")
+		if l.Goal.Expr != nil {
+			g := sev.expr(l.Goal.Expr)
+			u.emit(st, "goal", g.T, l.Goal.Text)
+		}
+		u.finalize()
+		for _, o := range u.obls {
+			o.Property = l.Props
+			if o.Kind == "goal" {
+				o.Kind = "lemma"
+			}
+		}
+		out = append(out, u.obls...)
+	}
+	return out
+}
+
+var _ = fmt.Sprint
